@@ -121,6 +121,8 @@ def cli_sample(c, texts, prop):
 
 def run(prop, tier, seed, replay=None):
     key = {'C01': 'c01', 'C07': 'c07'}[prop]
+    from checks import flow
+    flow.make_files()
     c = core.Check(prop, tier, seed)
     c.rule = ('inputs = every snippet sequence enumerated by GenFree.tla (TLC, exhaustive at the listed bounds; closed under truncation and '
               'single-snippet deletion) plus every character-level truncation and single-symbol deletion of TLC-simulated well-formed documents, '
